@@ -480,7 +480,9 @@ Section FrontSorted.
   Variables dom feq : K -> K -> bool.
   Variable sim : I -> I -> bool.
   Variable UK : K -> Prop.
-  Hypothesis worse_better : forall a b, UK a -> UK b -> worse a b = better b a.
+  Variable bot : K -> bool.
+  Hypothesis worse_better : forall a b, UK a -> UK b ->
+    if bot a then worse a b = true /\ better a b = false else worse a b = better b a.
   Hypothesis better_irrefl : forall a, UK a -> better a a = false.
   Hypothesis better_trans : forall a b c, UK a -> UK b -> UK c ->
     better a b = true -> better b c = true -> better a c = true.
@@ -542,7 +544,7 @@ Section FrontSorted.
       as [(E & _ & _)|(ds & D & M1 & Hkeep & Hfree & E & _)].
     - rewrite E. exact S.
     - cbv zeta in *. rewrite E. destruct (prune_desc_sorted ds a S U) as [S1 U1].
-      destruct (arch_insert_sorted K I key worse better UK worse_better better_irrefl better_trans better_negtrans _ ind Uind U1 S1) as [S2 U2].
+      destruct (arch_insert_sorted K I key worse better UK bot worse_better better_irrefl better_trans better_negtrans _ ind Uind U1 S1) as [S2 U2].
       apply final_sorted; assumption.
   Qed.
 
@@ -561,7 +563,7 @@ Section FrontSorted.
     - rewrite E. exists m. split; [exact Hm|]. apply better_irrefl. auto.
     - cbv zeta in *. set (a1 := prune_desc K I a ds) in *. rewrite E.
       destruct (prune_desc_sorted ds a S U) as [S1 U1]. fold a1 in S1, U1.
-      destruct (arch_insert_sorted K I key worse better UK worse_better better_irrefl better_trans better_negtrans a1 ind Uind U1 S1) as [S2 U2].
+      destruct (arch_insert_sorted K I key worse better UK bot worse_better better_irrefl better_trans better_negtrans a1 ind Uind U1 S1) as [S2 U2].
       pose proof (arch_insert_mirror K I key worse a1 ind M1) as M2.
       set (a2 := ins a1 ind) in *.
       assert (Ua2 : forall x, In x (items a2) -> UK (key x)).
@@ -783,7 +785,8 @@ Section FrontConcrete.
   Hypothesis HM : all_multi (map fitness seen_all).
 
   Let U := inU (map fitness seen_all).
-  Let wb := u_worse _ HS.
+  Let nobot := fun _ : fit => false.
+  Let wb := u_worse_nobot _ HS.
   Let bi := u_better_irrefl _ HS.
   Let bt := u_better_trans _ HS.
   Let bn := u_better_negtrans _ HS.
@@ -811,7 +814,7 @@ Section FrontConcrete.
     incl (concat pops) seen_all -> ksorted fit indiv f_better (pf_runs sk cap empty_arch pops).
   Proof.
     intros Inc. unfold pf_runs. rewrite pf_run_fold.
-    apply (sorted_fold fit indiv fitness f_worse f_better f_dom f_eq (sim_of sk) U wb bi bt bn di dt cl cap
+    apply (sorted_fold fit indiv fitness f_worse f_better f_dom f_eq (sim_of sk) U nobot wb bi bt bn di dt cl cap
              (concat pops) [] empty_arch).
     - apply useen_of, Inc.
     - apply PInv_empty.
@@ -847,7 +850,7 @@ Section FrontConcrete.
   Proof.
     intros Inc E. unfold pf_upd.
     assert (Inc1 : incl (concat pops) seen_all) by (intros x Hx; apply Inc; apply in_or_app; left; exact Hx).
-    apply (front_best_never_worse fit indiv fitness f_worse f_better f_dom f_eq (sim_of sk) U wb bi bt bn di dt cl db cap
+    apply (front_best_never_worse fit indiv fitness f_worse f_better f_dom f_eq (sim_of sk) U nobot wb bi bt bn di dt cl db cap
              (concat pops) _ pop h rest).
     - apply useen_of, Inc.
     - apply front_PInv, Inc1.
